@@ -121,12 +121,45 @@ func runC13(c *Ctx) {
 			h.Tags = append(h.Tags, fmt.Sprintf("t%d", len(h.Tags)))
 		}
 	}
+	// two objects may share the directory of the store they live in (same
+	// first four hex digits): a repair of one must not disturb the other
+	if t.Bool(1, 3, "objects-sharing-a-store-directory") {
+		var have []string
+		for o := range LocalObjects(g) {
+			have = append(have, o)
+		}
+		sort.Strings(have)
+		if len(have) > 0 {
+			target := have[t.Choose(len(have), "twin-of")]
+			for k := 0; k < 400000; k++ {
+				cand := []byte(fmt.Sprintf("twin content %d of %s\n", k, target[:8]))
+				if o := Oid(cand); o[:4] == target[:4] && o != target {
+					h.WriteFile("twin.bin", cand)
+					h.commit("an object stored next to " + target[:8])
+					c.Probe("objects-sharing-a-store-directory")
+					break
+				}
+			}
+		}
+	}
+	// nested attribute files with identical content in two directories
+	nested := t.Bool(1, 3, "nested-identical-gitattributes")
+	if nested {
+		for _, d := range []string{"n1", "n2"} {
+			os.MkdirAll(filepath.Join(u1, d), 0755)
+			os.WriteFile(filepath.Join(u1, d, ".gitattributes"), []byte("*.raw filter=lfs diff=lfs merge=lfs -text\n"), 0644)
+		}
+		h.commit("nested attributes")
+	}
 	// bad pointers: tracked paths committed as raw content or as a non-canonical pointer
 	badPaths := map[string]string{} // path -> kind
 	badBlob := map[string]string{}  // path -> blob id
 	nbad := t.Choose(3, "n-bad-pointers")
 	for i := 0; i < nbad; i++ {
 		p := fmt.Sprintf("bad%d.bin", i)
+		if nested {
+			p = fmt.Sprintf("n%d/bad%d.raw", 2-i%2, i)
+		}
 		var blob []byte
 		kind := "raw"
 		if t.Choose(2, "bad-kind") == 1 {
